@@ -172,6 +172,20 @@ func (Sim) Run(raw json.RawMessage, prop string, keep bool) (res simfw.Result) {
 	newRaceReports() // discard anything older than this run
 
 	zzsimrt.ResetMapOrder(0)
+	// simulated file system for "load" ops (read-only while callers run); markers of
+	// the baseline documents are served too
+	files := map[string][]byte{}
+	for _, m := range []string{s.Marker, s.Marker + "b1", s.Marker + "b2", s.Marker + "b3", s.Marker + "b4"} {
+		files["/simconc/"+m+"/main.yaml"] = []byte(strings.Replace(docYAML(m), "components:\n", "components:\n  parameters:\n    Shared: {$ref: 'other.yaml#/components/parameters/P'}\n", 1))
+		files["/simconc/"+m+"/other.yaml"] = []byte("openapi: 3.0.3\ninfo: {title: other, version: '1'}\npaths: {}\ncomponents:\n  parameters:\n    P: {name: p, in: query, schema: {type: string, pattern: '^p" + m + "$'}}\n")
+	}
+	zzsimrt.ReadFileFunc = func(name string) ([]byte, error, bool) {
+		if b, ok := files[name]; ok {
+			return b, nil, true
+		}
+		return nil, fmt.Errorf("open %s: no such file or directory", name), true
+	}
+	defer func() { zzsimrt.ReadFileFunc = nil }()
 	w, err := LoadWorld(s.Marker, s.ColdPatterns, s.PlainDoc)
 	if err != nil {
 		res.Inconcl = "world: " + simfw.Trunc(err.Error(), 80)
